@@ -354,12 +354,26 @@ Proof.
     apply IH; [lia|lia|]. rewrite <- Hrest2. lia.
 Qed.
 
-(** the relation between what the translated Skip returns and what the model's [skip] returns *)
-Theorem gen_Skip : forall data wt, bytes_ok data -> (0 <= wt < 128)%Z ->
-  (Z.of_nat (length data) < 4611686018427387904)%Z ->
-  Skip (S (length data)) data wt = lift (skip data (Z.to_N wt)).
+(** the model's counted loop does not depend on its fuel once there is enough of it *)
+Lemma skip_slice_fuel : forall f1 f2 count_ rest off, (length rest < f1)%nat -> (length rest < f2)%nat ->
+  skip_slice f1 count_ rest off = skip_slice f2 count_ rest off.
 Proof.
-  intros data wt Hb Hwt Hlen. unfold Skip, skip.
+  induction f1 as [|f1 IH]; intros f2 count_ rest off H1 H2; [lia|]. destruct f2 as [|f2]; [lia|].
+  cbn [skip_slice]. destruct (count_ =? 0); [reflexivity|]. destruct rest as [|b r]; [reflexivity|].
+  destruct (read_varuint (b :: r)) as [l n] eqn:Erv.
+  destruct (Z.leb n 0) eqn:En0; [reflexivity|]. apply Z.leb_gt in En0.
+  unfold go_drop. destruct (Z.to_N n <=? len (b :: r)) eqn:E1; [|reflexivity]. cbn [bind].
+  destruct (len (skipn (N.to_nat (Z.to_N n)) (b :: r)) <? l); [reflexivity|].
+  destruct (l <=? len (skipn (N.to_nat (Z.to_N n)) (b :: r))) eqn:E2; [|reflexivity]. cbn [bind].
+  apply IH; rewrite !skipn_length; cbn [length] in *; lia.
+Qed.
+
+(** the relation between what the translated Skip returns and what the model's [skip] returns *)
+Theorem gen_Skip_fuel : forall data wt fuel, bytes_ok data -> (0 <= wt < 128)%Z ->
+  (Z.of_nat (length data) < 4611686018427387904)%Z -> (length data < fuel)%nat ->
+  Skip fuel data wt = lift (skip data (Z.to_N wt)).
+Proof.
+  intros data wt fuel Hb Hwt Hlen Hfuel. unfold Skip, skip.
   assert (Hcase : (wt = 0 \/ wt = 1 \/ wt = 2 \/ wt = 3 \/ wt = 5 \/ (wt = 4 \/ 6 <= wt))%Z) by lia.
   destruct Hcase as [->|[->|[->|[->|[->|Hother]]]]].
   - (* WTVarInt *) cbn [Z.eqb Z.to_N N.eqb Wire.WTVarInt]. apply (gen_skip_varint_loop data 0 Hb). lia.
@@ -380,11 +394,12 @@ Proof.
     pose proof (read_varuint_lt64 data count_ n Hb Erv) as Hc.
     destruct (Z.leb n 0) eqn:En0; [reflexivity|]. apply Z.leb_gt in En0.
     destruct (go_drop_ok "Skip.WTSlice data[n:]" (Z.to_N n) data ltac:(unfold len; lia)) as [E1 L1]. rewrite E1. cbn [bind].
-    change ((do lr <- slice_loop data count_ (S (length data)) 0 n;
+    change ((do lr <- slice_loop data count_ fuel 0 n;
              match lr with LRet v => Ok v | LDone (_, offset) => Ok offset end)
             = lift (skip_slice (S (length data)) count_ (skipn (N.to_nat (Z.to_N n)) data) (Z.to_N n))).
-    pose proof (gen_skip_slice_loop data count_ Hlen Hc (S (length data)) 0 n ltac:(lia) ltac:(lia)) as H.
+    pose proof (gen_skip_slice_loop data count_ Hlen Hc fuel 0 n ltac:(lia) ltac:(lia)) as H.
     rewrite N.sub_0_r in H. replace (N.to_nat (Z.to_N n)) with (Z.to_nat n) by lia.
+    rewrite (skip_slice_fuel (S (length data)) fuel) by (rewrite skipn_length; lia).
     apply H. rewrite skipn_length. lia.
   - (* WT32 *) cbn [Z.eqb Z.to_N N.eqb Pos.eqb Wire.WTVarInt Wire.WT64 Wire.WTLength Wire.WTSlice Wire.WT32]. unfold go_len, len.
     destruct (N.of_nat (length data) <? 4) eqn:E.
@@ -404,6 +419,11 @@ Proof.
     replace (Z.to_N wt =? 5) with false by (symmetry; apply N.eqb_neq; lia).
     reflexivity.
 Qed.
+
+Theorem gen_Skip : forall data wt, bytes_ok data -> (0 <= wt < 128)%Z ->
+  (Z.of_nat (length data) < 4611686018427387904)%Z ->
+  Skip (S (length data)) data wt = lift (skip data (Z.to_N wt)).
+Proof. intros data wt Hb Hwt Hlen. apply gen_Skip_fuel; auto. Qed.
 
 (** ** C18 on the code as translated: the properties of the model carried over *)
 
